@@ -997,3 +997,149 @@ Proof.
       destruct (I_checked_add_spec w n a _ Hw Hn Ha Hwd) as [_ Hout].
       rewrite (Hout Ht). reflexivity.
 Qed.
+
+(* ---------- collected corollaries ---------- *)
+
+(* zero divisor: every checked form answers None, in both build modes *)
+Theorem I_checked_zero_divisor dbg w n a b :
+  0 < w -> U_div_rem_spec w -> (0 < n)%nat -> wf w n a -> wf w n b -> sval w b = 0 ->
+  I_checked_div dbg w a b = Ret None /\
+  I_checked_rem dbg w a b = Ret None /\
+  I_checked_div_euclid dbg w a b = Ret None /\
+  I_checked_rem_euclid dbg w a b = Ret None /\
+  I_checked_next_multiple_of dbg w a b = Ret None.
+Proof.
+  intros Hw HS Hn Ha Hb Hz.
+  split; [apply (I_checked_div_ok dbg w n a b); auto|].
+  split; [apply (I_checked_rem_ok dbg w n a b); auto|].
+  split; [apply (I_checked_div_euclid_ok dbg w n a b); auto|].
+  split; [apply (I_checked_rem_euclid_ok dbg w n a b); auto|].
+  destruct (I_checked_next_multiple_of_ok dbg w n a b Hw HS Hn Ha Hb) as (H & _). exact (H Hz).
+Qed.
+
+(* zero divisor: every other form panics, in both build modes *)
+Theorem I_zero_divisor_panics dbg w n a b :
+  0 < w -> U_div_rem_spec w -> (0 < n)%nat -> wf w n a -> wf w n b -> sval w b = 0 ->
+  I_div dbg w a b = Panic /\ I_rem dbg w a b = Panic /\
+  I_div_euclid dbg w a b = Panic /\ I_rem_euclid dbg w a b = Panic /\
+  I_overflowing_div dbg w a b = Panic /\ I_overflowing_rem dbg w a b = Panic /\
+  I_overflowing_div_euclid dbg w a b = Panic /\ I_overflowing_rem_euclid dbg w a b = Panic /\
+  I_wrapping_div dbg w a b = Panic /\ I_wrapping_rem dbg w a b = Panic /\
+  I_wrapping_div_euclid dbg w a b = Panic /\ I_wrapping_rem_euclid dbg w a b = Panic /\
+  I_saturating_div dbg w a b = Panic /\
+  I_div_floor dbg w a b = Panic /\ I_div_ceil dbg w a b = Panic /\
+  I_next_multiple_of dbg w a b = Panic.
+Proof.
+  intros Hw HS Hn Ha Hb Hz.
+  split; [apply (I_div_ok dbg w n a b); auto|].
+  split; [apply (I_rem_ok dbg w n a b); auto|].
+  split; [apply (I_div_euclid_ok dbg w n a b); auto|].
+  split; [apply (I_rem_euclid_ok dbg w n a b); auto|].
+  split; [apply (I_overflowing_div_ok dbg w n a b); auto|].
+  split; [apply (I_overflowing_rem_ok dbg w n a b); auto|].
+  split; [apply (I_overflowing_div_euclid_ok dbg w n a b); auto|].
+  split; [apply (I_overflowing_rem_euclid_ok dbg w n a b); auto|].
+  split; [apply (I_wrapping_div_ok dbg w n a b); auto|].
+  split; [apply (I_wrapping_rem_ok dbg w n a b); auto|].
+  split; [apply (I_wrapping_div_euclid_ok dbg w n a b); auto|].
+  split; [apply (I_wrapping_rem_euclid_ok dbg w n a b); auto|].
+  split; [apply (I_saturating_div_ok dbg w n a b); auto|].
+  split; [apply (I_div_floor_ok dbg w n a b); auto|].
+  split; [apply (I_div_ceil_ok dbg w n a b); auto|].
+  destruct (I_next_multiple_of_ok dbg w n a b Hw HS Hn Ha Hb) as (H & _). exact (H Hz).
+Qed.
+
+(* MIN / -1, in both build modes *)
+Theorem I_min_neg_one dbg w n a b :
+  0 < w -> U_div_rem_spec w -> (0 < n)%nat -> wf w n a -> wf w n b -> min_neg_one w n a b ->
+  I_checked_div dbg w a b = Ret None /\
+  I_checked_rem dbg w a b = Ret None /\
+  I_checked_div_euclid dbg w a b = Ret None /\
+  I_checked_rem_euclid dbg w a b = Ret None /\
+  I_overflowing_div dbg w a b = Ret (a, true) /\
+  I_overflowing_div_euclid dbg w a b = Ret (a, true) /\
+  I_overflowing_rem dbg w a b = Ret (ZERO n, true) /\
+  I_overflowing_rem_euclid dbg w a b = Ret (ZERO n, true) /\
+  sval w a = - (Mod w n / 2) /\ sval w (ZERO n) = 0 /\
+  I_wrapping_div dbg w a b = Ret a /\
+  I_wrapping_div_euclid dbg w a b = Ret a /\
+  I_wrapping_rem dbg w a b = Ret (ZERO n) /\
+  I_wrapping_rem_euclid dbg w a b = Ret (ZERO n) /\
+  I_saturating_div dbg w a b = Ret (IMAX w n) /\ sval w (IMAX w n) = Mod w n / 2 - 1 /\
+  I_div dbg w a b = Panic /\ I_rem dbg w a b = Panic /\
+  I_div_euclid dbg w a b = Panic /\ I_rem_euclid dbg w a b = Panic /\
+  SRet w n (I_div_floor dbg w a b) (- (Mod w n / 2)) /\
+  SRet w n (I_div_ceil dbg w a b) (- (Mod w n / 2)) /\
+  I_next_multiple_of dbg w a b = Ret a /\
+  I_checked_next_multiple_of dbg w a b = Ret (Some a).
+Proof.
+  intros Hw HS Hn Ha Hb Hm.
+  destruct (I_overflowing_div_ok dbg w n a b Hw HS Hn Ha Hb) as (_ & D & _).
+  destruct (I_overflowing_div_euclid_ok dbg w n a b Hw HS Hn Ha Hb) as (_ & DE & _).
+  destruct (I_overflowing_rem_ok dbg w n a b Hw HS Hn Ha Hb) as (_ & R & _).
+  destruct (I_overflowing_rem_euclid_ok dbg w n a b Hw HS Hn Ha Hb) as (_ & RE & _).
+  specialize (D Hm). specialize (DE Hm). specialize (R Hm). specialize (RE Hm).
+  split; [apply (I_checked_div_ok dbg w n a b); auto|].
+  split; [apply (I_checked_rem_ok dbg w n a b); auto|].
+  split; [apply (I_checked_div_euclid_ok dbg w n a b); auto|].
+  split; [apply (I_checked_rem_euclid_ok dbg w n a b); auto|].
+  split; [exact D|]. split; [exact DE|]. split; [exact R|]. split; [exact RE|].
+  split; [destruct Hm; assumption|]. split; [apply sval_ZERO; auto|].
+  split; [unfold I_wrapping_div; rewrite D; reflexivity|].
+  split; [unfold I_wrapping_div_euclid; rewrite DE; reflexivity|].
+  split; [unfold I_wrapping_rem; rewrite R; reflexivity|].
+  split; [unfold I_wrapping_rem_euclid; rewrite RE; reflexivity|].
+  split; [apply (I_saturating_div_ok dbg w n a b); auto|].
+  split; [apply sval_IMAX; auto|].
+  split; [apply (I_div_ok dbg w n a b); auto|].
+  split; [apply (I_rem_ok dbg w n a b); auto|].
+  split; [apply (I_div_euclid_ok dbg w n a b); auto|].
+  split; [apply (I_rem_euclid_ok dbg w n a b); auto|].
+  split; [apply (I_div_floor_ok dbg w n a b); auto|].
+  split; [apply (I_div_ceil_ok dbg w n a b); auto|].
+  assert (Ez : is_zero (ZERO n) = true).
+  { rewrite (is_zero_spec w n) by (lia || apply wf_ZERO; lia). rewrite uval_ZERO. reflexivity. }
+  split.
+  - unfold I_next_multiple_of, I_wrapping_rem_euclid. rewrite RE. cbn [omap fst obind].
+    rewrite Ez. reflexivity.
+  - unfold I_checked_next_multiple_of, I_wrapping_rem_euclid.
+    rewrite (zero_test_false w n b) by (auto; eapply mno_nz; eauto).
+    rewrite RE. cbn [omap fst obind]. rewrite Ez. reflexivity.
+Qed.
+
+(* ---------- concrete witnesses (w = 8, n = 1) for the notes in the report ---------- *)
+
+(* div_floor / div_ceil do not trap MIN / -1: MIN comes back, with and without debug assertions *)
+Example div_floor_min_neg_one_w8 :
+  I_div_floor true 8 [128] [255] = Ret [128] /\ I_div_floor false 8 [128] [255] = Ret [128] /\
+  I_div_ceil true 8 [128] [255] = Ret [128] /\ I_div_ceil false 8 [128] [255] = Ret [128].
+Proof. vm_compute. repeat split. Qed.
+
+(* next_multiple_of with an unrepresentable target: 127 -> next multiple of 2 is 128;
+   -128 -> the multiple of -3 below it is -129 *)
+Example next_multiple_of_overflow_w8 :
+  I_next_multiple_of true 8 [127] [2] = Panic /\ I_next_multiple_of false 8 [127] [2] = Ret [128] /\
+  I_checked_next_multiple_of true 8 [127] [2] = Ret None /\
+  I_next_multiple_of true 8 [128] [253] = Panic /\ I_next_multiple_of false 8 [128] [253] = Ret [127] /\
+  I_checked_next_multiple_of false 8 [128] [253] = Ret None.
+Proof. vm_compute. repeat split. Qed.
+
+(* in the 1-bit type (w = 1, n = 1) ONE = [1] reads -1, so is_one tests for -1 there *)
+Example is_one_one_bit : is_one [1] = true /\ sval 1 [1] = -1.
+Proof. vm_compute. split; reflexivity. Qed.
+
+Print Assumptions I_div_rem_unchecked_ok.
+Print Assumptions I_div_ok.
+Print Assumptions I_rem_ok.
+Print Assumptions I_overflowing_div_ok.
+Print Assumptions I_overflowing_rem_ok.
+Print Assumptions I_overflowing_div_euclid_ok.
+Print Assumptions I_overflowing_rem_euclid_ok.
+Print Assumptions I_euclid_pair.
+Print Assumptions I_div_floor_ok.
+Print Assumptions I_div_ceil_ok.
+Print Assumptions I_next_multiple_of_ok.
+Print Assumptions I_checked_next_multiple_of_ok.
+Print Assumptions I_checked_zero_divisor.
+Print Assumptions I_zero_divisor_panics.
+Print Assumptions I_min_neg_one.
